@@ -193,6 +193,9 @@ func remeasure(c *hcase, di int) (al uint64) {
 	}
 	var ms runtime.MemStats
 	for i := 0; i <= di; i++ {
+		if c.Hist[i].Addr == nil && string(c.Hist[i].B) == reloadMarker {
+			continue
+		}
 		b := cp(c.Hist[i].B)
 		if i == di {
 			runtime.ReadMemStats(&ms)
@@ -254,6 +257,9 @@ func normErr(s string) string {
 	}
 	return s
 }
+
+// reloadMarker in a history (with a nil address) stands for "save the template cache, load it back".
+const reloadMarker = "<<SAVE-AND-RELOAD-CACHE>>"
 
 // shared with the watchdog
 var (
@@ -352,6 +358,19 @@ func childMain(a mon.Args) {
 		}
 		nontrivial := false
 		for di, d := range c.Hist {
+			if d.Addr == nil && string(d.B) == reloadMarker {
+				// a restart: the cache is saved and loaded back, as shutdown() and run() do
+				f := a.Rest["progress"] + ".cache"
+				if c.Proto == "ipfix" {
+					cs.ic.Dump(f)
+					cs.ic = ipfix.GetCache(f)
+				} else if c.Proto == "nf9" {
+					cs.nc.Dump(f)
+					cs.nc = netflow9.GetCache(f)
+				}
+				os.Remove(f)
+				continue
+			}
 			b := cp(d.B) // the decoders may write into the buffer (802.1Q untagging): give them their own
 			n := len(b)
 			atomic.StoreInt64(&curIdx, int64(idx))
